@@ -226,6 +226,25 @@ def run(check):
             if cmp_ and (jsast.opt_member_chain(cmp_[0]) or [""])[-1] == "status":
                 n += 1
                 c.expect(cmp_[1] in variants, R, "%s/status/%s" % (R, cmp_[1]), main.loc(x), "%r is a Status name" % cmp_[1], "main.js compares metrics.status with %r; the Rust side only produces %s" % (cmp_[1], variants))
+        # ... or hands the string to a local predicate that compares `.status` with its parameter
+        Fm = jsguards.File(main)
+        for name_, h_ in Fm.decls.items():
+            ps_ = Fm.params(h_)
+            cmp_params = set()
+            for x in jsast.walk(h_):
+                if x.get("type") == "BinaryExpression" and x.get("operator") in ("===", "=="):
+                    for a_, b_ in ((x["left"], x["right"]), (x["right"], x["left"])):
+                        if (jsast.opt_member_chain(jsguards.JF.unparen(a_)) or [""])[-1] == "status" and jsast.ident_name(b_) in ps_:
+                            cmp_params.add(ps_.index(jsast.ident_name(b_)))
+            if not cmp_params:
+                continue
+            for call in Fm.callers(name_):
+                for i_ in cmp_params:
+                    a_ = call["arguments"][i_]["expression"] if i_ < len(call.get("arguments", [])) else None
+                    okc, v = Fm.const_value(a_) if a_ is not None else (False, None)
+                    if okc and isinstance(v, str):
+                        n += 1
+                        c.expect(v in variants, R, "%s/status/%s" % (R, v), main.loc(call), "%r is a Status name" % v, "main.js compares metrics.status with %r; the Rust side only produces %s" % (v, variants))
         c.floor(R, "status comparisons in main.js", n, 2)
         gm = prog.fn("lib_wasm::get_metrics")
         c.ok(R, R + "/lowercase", hir.loc(gm.rec), "status strings are produced by to_string().to_lowercase() (C15 METRICS-SHAPE)")
